@@ -23,17 +23,18 @@ Qed.
 
 Lemma acyc_no_cycle m x p : acyc m -> parent (m x) = Some p -> ~ desc m x p.
 Proof.
-  intros [rk Hrk] Hp Hd. pose proof (desc_rank m rk x p Hrk Hd). specialize (Hrk _ _ Hp). lia.
+  intros (rk & B & Hrk & _) Hp Hd. pose proof (desc_rank m rk x p Hrk Hd). specialize (Hrk _ _ Hp). lia.
 Qed.
 
 Lemma acyc_ext m m' : (forall y, parent (m' y) = parent (m y)) -> acyc m -> acyc m'.
-Proof. intros He [rk Hrk]. exists rk. intros c p. rewrite He. apply Hrk. Qed.
+Proof. intros He (rk & B & Hrk & Hb). exists rk, B. split; [|assumption]. intros c p. rewrite He. apply Hrk. Qed.
 
 (* cutting an edge keeps the forest *)
 Lemma acyc_cut m m' :
   (forall y, parent (m' y) = parent (m y) \/ parent (m' y) = None) -> acyc m -> acyc m'.
 Proof.
-  intros He [rk Hrk]. exists rk. intros c p Hp. destruct (He c) as [H|H]; [|congruence].
+  intros He (rk & B & Hrk & Hb). exists rk, B. split; [|assumption].
+  intros c p Hp. destruct (He c) as [H|H]; [|congruence].
   apply Hrk. congruence.
 Qed.
 
@@ -74,12 +75,13 @@ Lemma acyc_attach m m' p c :
   parent (m' c) = Some p -> (forall y, y <> c -> parent (m' y) = parent (m y)) ->
   acyc m'.
 Proof.
-  intros [rk Hrk] Hroot Hnd Hpc Hoth.
+  intros (rk & B & Hrk & Hbound) Hroot Hnd Hpc Hoth.
   set (below := fun y => match is_anc (S (rk y)) m c y with Some true => true | _ => false end).
   assert (Hbelow : forall y, below y = true <-> desc m c y).
   { intro y. unfold below. destruct (is_anc_spec m rk Hrk (S (rk y)) c y) as (b & Hb & Hbd); [lia|].
     rewrite Hb. destruct b; [tauto|]. split; [discriminate|]. intro H. apply Hbd in H. discriminate. }
-  exists (fun y => if below y then rk y + rk p + 1 else rk y).
+  exists (fun y => if below y then rk y + rk p + 1 else rk y), (B + B + 1).
+  split; [|intro y; pose proof (Hbound y); pose proof (Hbound p); destruct (below y); lia].
   intros y q Hq. destruct (Nat.eq_dec y c) as [->|Hy].
   - rewrite Hpc in Hq. inversion Hq; subst q.
     assert (H1 : below c = true) by (apply Hbelow; constructor).
@@ -94,4 +96,41 @@ Proof.
     + destruct (below q) eqn:Hbq; [|lia].
       apply Hbelow in Hbq. assert (Hd : desc m c y) by (eapply desc_child; eauto).
       apply Hbelow in Hd. congruence.
+Qed.
+
+(* two ancestors of one node are comparable *)
+Lemma desc_comparable m a b y : desc m a y -> desc m b y -> desc m a b \/ desc m b a.
+Proof.
+  intros Ha. revert b. induction Ha as [|c p Ha IH Hp]; intros b Hb; [right; assumption|].
+  apply desc_inv in Hb. destruct Hb as [->|(q & Hq & Hb)].
+  - left. eapply desc_child; eauto.
+  - assert (q = p) by congruence. subst q. now apply IH.
+Qed.
+
+Lemma siblings_disjoint m x c1 c2 y :
+  acyc m -> parent (m c1) = Some x -> parent (m c2) = Some x -> c1 <> c2 ->
+  desc m c1 y -> desc m c2 y -> False.
+Proof.
+  intros Hac H1 H2 Hne Hd1 Hd2. destruct (desc_comparable m c1 c2 y Hd1 Hd2) as [Hd|Hd].
+  - apply desc_inv in Hd. destruct Hd as [?|(q & Hq & Hd)]; [congruence|].
+    assert (q = x) by congruence. subst q. now apply (acyc_no_cycle m c1 x Hac H1).
+  - apply desc_inv in Hd. destruct Hd as [?|(q & Hq & Hd)]; [congruence|].
+    assert (q = x) by congruence. subst q. now apply (acyc_no_cycle m c2 x Hac H2).
+Qed.
+
+Lemma sibling_not_above m x c1 c2 y :
+  acyc m -> parent (m c1) = Some x -> parent (m c2) = Some x -> c1 <> c2 ->
+  desc m c1 y -> desc m y c2 -> False.
+Proof.
+  intros Hac H1 H2 Hne Hd1 Hd2. pose proof (desc_trans m c1 y c2 Hd1 Hd2) as Hd.
+  apply desc_inv in Hd. destruct Hd as [?|(q & Hq & Hd)]; [congruence|].
+  assert (q = x) by congruence. subst q. now apply (acyc_no_cycle m c1 x Hac H1).
+Qed.
+
+Lemma desc_via_child m x y : desc m x y -> y <> x -> exists c, parent (m c) = Some x /\ desc m c y.
+Proof.
+  induction 1 as [|c p Hd IH Hp]; intro Hne; [congruence|].
+  destruct (Nat.eq_dec p x) as [->|Hpx].
+  - exists c. split; [assumption|constructor].
+  - destruct (IH Hpx) as (c' & Hc' & Hd'). exists c'. split; [assumption|]. eapply desc_child; eauto.
 Qed.
